@@ -7,7 +7,7 @@
    width / length-form choice explicit, ser, decoder spec_dec), C10.CborConv (go_of: the Go
    value carrying given data; lib_supports: documented limits; tdepth; tree_of). *)
 From Coq Require Import List NArith ZArith Lia Bool.
-From Verif Require Import Base.Outcome Wire.Item Gen.Consts Wire.CborFloat Wire.Cbor C10.CborSpec C10.CborConv Wire.CborProofs Wire.CborEnc Wire.CborDepth Wire.CborTotal Wire.CborDepthErr.
+From Verif Require Import Base.Outcome Wire.Item Gen.Consts Wire.CborFloat Wire.Cbor C10.CborSpec C10.CborConv Wire.CborProofs Wire.CborTime Wire.CborEnc Wire.CborDepth Wire.CborTotal Wire.CborDepthErr.
 Import ListNotations.
 Open Scope N_scope.
 
@@ -70,6 +70,70 @@ Theorem Wcbor_dec_enc_partial : forall (O : eopts) (D : dopts) (i : item) (rest 
   dec_naked D (fuel_for (enc O i ++ rest)) (enc O i ++ rest) = Ok (norm O D i, rest).
 Proof. exact dec_enc_lemma. Qed.
 Print Assumptions Wcbor_dec_enc_partial.
+
+(* ---- tag 0 (RFC 3339 date/time string) and times written under TimeRFC3339 ----
+   The [_t] vocabulary (C10.CborConv: go_of_t, lib_supports_t, tdepth_t; CborEnc.norm_t) extends the one
+   above to tag 0 and agrees with it wherever the latter applies (Wcbor_norm_t_norm). *)
+
+(* IN, extended: as C10_cbor_in, and a tag 0 item whose content is a byte / text string of any form
+   holding text that parses as strict UTC RFC 3339 decodes to that time (no depth consumed) *)
+Theorem C10_cbor_in_t : forall (D : dopts) (t : wtree) (rest : list N),
+  twf t -> lib_supports_t D t -> (tdepth_t D t < maxdepth D)%Z ->
+  dec_naked D (fuel_for (ser t ++ rest)) (ser t ++ rest) = Ok (go_of_t D (data_of t), rest).
+Proof. exact cbor_in_t_lemma. Qed.
+Print Assumptions C10_cbor_in_t.
+
+(* the calendar arithmetic: civil_from_days yields a valid date and is inverted by days_from_civil, for
+   every day number (facts about the day of the 400-year era checked exhaustively over its 146097 days:
+   two nested 383-ranges, vm_compute; lifted to all eras arithmetically) *)
+Theorem Wcbor_civil_inverse : forall days y m d, civil days = (y, m, d) ->
+  (1 <= m <= 12)%Z /\ (1 <= d <= days_in_month y m)%Z /\ days_from_civil y m d = days
+  /\ (y - 400 <= (days + 719468) / 146097 * 400 <= y)%Z.
+Proof. exact civil_inverse. Qed.
+Print Assumptions Wcbor_civil_inverse.
+
+(* parsing the text the encoder prints gives back the instant, rounded to the microsecond as decodeTime
+   does for BOTH wire forms; for every instant whose UTC year is 0..9999 ([year_ok], the range Go's
+   RFC 3339 formatter accepts: -62167219200 <= sec <= 253402300799) and every nanosecond field *)
+Theorem Wcbor_parse_fmt : forall (sec : Z) (nsec : N), year_ok sec = true -> nsec < 1000000000 ->
+  parse_rfc3339 (fmt_rfc3339 sec nsec) = Ok (ITime (fst (round_us sec nsec)) (snd (round_us sec nsec))).
+Proof. exact parse_rfc3339_fmt. Qed.
+Print Assumptions Wcbor_parse_fmt.
+
+(* a time under TimeRFC3339 is supported wherever it occurs, consumes no depth, and its norm_t is the
+   microsecond-rounded instant (nil for the zero time) *)
+Theorem Wcbor_time_rfc3339 : forall (O : eopts) (D : dopts) (s : Z) (n : N),
+  eo_rfc3339 O = true -> year_ok s = true -> n < 1000000000 ->
+  lib_supports_t D (tree_of O (ITime s n)) /\ tdepth_t D (tree_of O (ITime s n)) = 0%Z /\
+  norm_t O D (ITime s n) =
+    (if (s =? zero_time_sec)%Z && (n =? 0) then INil else ITime (fst (round_us s n)) (snd (round_us s n))).
+Proof. exact time_rfc3339_lemma. Qed.
+Print Assumptions Wcbor_time_rfc3339.
+
+(* dec_enc, extended: every item [lib_supports_t] admits - in particular any nesting of containers
+   holding times written under TimeRFC3339 - decodes to norm_t.  (The tag-1 float form of a non-zero
+   time stays outside: Wcbor_dec_enc_partial.) *)
+Theorem Wcbor_dec_enc : forall (O : eopts) (D : dopts) (i : item) (rest : list N),
+  wf i -> plain i -> lib_supports_t D (tree_of O i) -> (tdepth_t D (tree_of O i) < maxdepth D)%Z ->
+  dec_naked D (fuel_for (enc O i ++ rest)) (enc O i ++ rest) = Ok (norm_t O D i, rest).
+Proof. exact dec_enc_t_lemma. Qed.
+Print Assumptions Wcbor_dec_enc.
+
+Theorem Wcbor_norm_t_norm : forall (O : eopts) (D : dopts) (i : item), wf i -> plain i ->
+  lib_supports D (tree_of O i) -> norm_t O D i = norm O D i.
+Proof. exact norm_t_norm. Qed.
+Print Assumptions Wcbor_norm_t_norm.
+
+Theorem Wcbor_compat_t : forall (D : dopts) (t : wtree), lib_supports D t ->
+  lib_supports_t D t /\ go_of_t D (data_of t) = go_of D (data_of t) /\ tdepth_t D t = tdepth D t.
+Proof. exact compat_t. Qed.
+Print Assumptions Wcbor_compat_t.
+
+Theorem Wcbor_dec_depth_err_t : forall (D : dopts) (t : wtree) (rest : list N),
+  twf t -> lib_supports_t D t -> (maxdepth D <= tdepth_t D t)%Z ->
+  dec_naked D (fuel_for (ser t ++ rest)) (ser t ++ rest) = Err EDepth.
+Proof. exact dec_depth_err_t_lemma. Qed.
+Print Assumptions Wcbor_dec_depth_err_t.
 
 (* skip (C11 at the wire level): the second parser nextValueBytes, as used to swallow an unknown
    struct field (depth d = 1) or to capture a Raw (d = 0), walks exactly one well-formed item of
@@ -230,4 +294,24 @@ Proof.
   - vm_compute. discriminate.
   - cbn. repeat (apply conj || lia || exact I).
   - vm_compute. discriminate.
+Qed.
+
+(* [2000-02-29T23:59:59.999999999Z, {1: 0001-01-01T00:00:00Z (nil), "k": 9999-12-31T23:59:59.5Z}] under
+   TimeRFC3339 + IndefiniteLength: round trip to the microsecond (the first rolls over to March 1st) *)
+Example Wcbor_time_roundtrip_nonvacuous :
+  let O := mkeo true true false false in
+  let D := mkdo false false false 0 in
+  let i := IArr [ITime 951868799 999999999; IMap [(IUint 1, ITime (-62135596800) 0); (IStr [107], ITime 253402300799 500000000)]] in
+  wf i /\ plain i /\ year_ok 951868799 = true /\ year_ok 253402300799 = true /\
+  dec_naked D (fuel_for (enc O i)) (enc O i) =
+    Ok (IArr [ITime 951868800 0; IMap [(IUint 1, INil); (IStr [107], ITime 253402300799 500000000)]], []) /\
+  norm_t O D i = IArr [ITime 951868800 0; IMap [(IUint 1, INil); (IStr [107], ITime 253402300799 500000000)]].
+Proof.
+  cbv zeta. split; [| split; [| split; [| split; [| split]]]].
+  - cbn. repeat (apply conj || apply Forall_cons || apply Forall_nil || lia || exact I).
+  - cbn. repeat (apply conj || lia || exact I).
+  - vm_compute. reflexivity.
+  - vm_compute. reflexivity.
+  - vm_compute. reflexivity.
+  - vm_compute. reflexivity.
 Qed.
